@@ -216,6 +216,10 @@ class DI:
 		if len(expect_types) != len(remain_args) or len(expect_types) != len(allow_types):
 			raise ValueError(f'Mismatch invoke arguments. factory: {injector}, expect: {expect_types}, actual: {[type(arg) for arg in remain_args]}')
 
+	def _binded_symbols(self) -> list[type]:
+		"""Returns: 登録済みのシンボルリスト"""
+		return list(self.__injectors.keys())
+
 	def _clone(self) -> Self:
 		"""インスタンスを複製
 
@@ -414,4 +418,10 @@ class LazyDI(DI):
 		"""
 		di = super().combine(other)
 		di.__definitions = {**self.__definitions, **other.__definitions}
+		# XXX マージ対象が遅延定義のみ(未解決)のシンボルは、レシーバー由来の登録とインスタンスを破棄し、マージ対象の定義を優先
+		other_binded = other._binded_symbols()
+		for symbol in self._binded_symbols():
+			if symbol not in other_binded and to_fullyname(symbol) in other.__definitions:
+				DI.unbind(di, symbol)
+
 		return di
